@@ -5,7 +5,7 @@ import compat  # noqa: F401
 from props.base import to_request, corpus_for  # noqa: F401
 
 ID = 'C04'
-LEAN_MODULES = ['PybtexModel.Props.C04']
+LEAN_MODULES = ['PybtexModel.Props.C04', 'PybtexModel.Props.LocalsC04']
 THEOREMS = {
     'C04_char_classes': 'the character classes of model and rule are the interpreter\'s str.isalpha/isupper/islower tables (regenerated); kernel-checked facts the rule relies on: upper and lower case are disjoint, below U+0080 the classes are the ASCII ones, white space / braces / backslash / comma / tie / hyphen / digits are in no class, a first character that is a letter or cased is an ordinary brace-level-0 character, and the first-character clause of the rule matters only for a cased first character that is not a letter',
     'C04_matches_spec': 'the model of Person._parse_string equals the rule Spec.split for EVERY non-empty string (no hypothesis) - RELATIVE to the shared C12 models: tokens = splitTex (split_tex_string), brace level / special character = the scanner scan; characterised separately by C12_split_* / C12_scan_*; the case rule is proved equal to the scanner-free one: C04_case_bibtex_partial',
@@ -19,12 +19,24 @@ THEOREMS = {
     'C04_total': 'parsing succeeds for EVERY non-empty string (no IndexError / ValueError / too many nested braces), reporting too many commas exactly when there are more than three comma parts',
     'C04_total_person': 'Person(string, first, middle, prelast, last, lineage) succeeds for ANY six strings; too many commas is reported exactly when the stripped string has more than three comma parts',
     'C04_tokens_nonempty': 'tokens of the tokeniser are never empty and a non-empty string has at least one comma part (why string[0] and the ValueError branch are unreachable)',
-    'C04_tokens_preserved': 'no token is lost, duplicated or reordered, RELATIVE to the model tokeniser splitTex (C12; not proved equal to the one-pass Spec.nameTokens): first++middle++prelast++last = tokens(s) without commas; prelast++last / lineage / first++middle = tokens of the first / second / last comma part (extra parts joined by blanks); first_names is the first token of First',
+    'C04_tokens_preserved': 'no token is lost, duplicated or reordered, RELATIVE to the model tokeniser splitTex (C12; equal to the one-pass Spec.nameTokens on balanced names: C04_tokeniser_is_rule, C04_tokens_by_rule): first++middle++prelast++last = tokens(s) without commas; prelast++last / lineage / first++middle = tokens of the first / second / last comma part (extra parts joined by blanks); first_names is the first token of First',
     'C04_von_longest': 'the von part is the longest run ending in a lower-case token that still leaves a last name: boundary = Spec.vonLast, no lower-case token left in last[:-1], von ends lower-case, last non-empty, a lower-case token before the final one forces von (every string)',
     'C04_case_rule': 'First von Last form: no token of First is lower-case, von (when present) starts with the first lower-case token, a lower-case token before the final token forces a von part (every string)',
     'C04_person_matches_spec': 'the constructor as a whole, for ANY six arguments: Person(string, first, middle, prelast, last, lineage) = the rule\'s split of the stripped string (nothing for a blank string) with the tokens of each explicit part appended, too many commas as the rule says (what the oracle clauses matches_bibtex / parts_same_tokenisation evaluate)',
     'C04_parts_same_tokenisation': 'explicit part arguments are tokenised by the same tokeniser and appended to the parts parsed from the string',
     'C04_braces_atomic': "every returned token is a non-empty token of the MODEL tokeniser splitTex applied to the name, one of its first two comma parts or the blank-joined rest (so that C12's tokeniser theorems apply to every name part)",
+    'C04_tables_current': 'the constants model and rule hard-code ARE those of the current source (kernel evaluation against Gen/NamesTables.lean, regenerated on every run from the code objects of /repo): the two tuples of built-in control sequences in special_char_islower = lowerControlSeqs / upperControlSeqs and Spec.builtinCase answers lower / upper on them, the item ("{", 1) is_von_name compares previous with, max_level = 100 of BibTeXString, the patterns of BIBTEX_SPACE_RE / BRACE_RE, the separators of _parse_string and __str__, the format string of InvalidNameString and the WARNING prefix of report_error',
+    'C04_find_pos_spec': 'find_pos(lst, pred) for a predicate that does not raise, EVERY list: the index of the first item satisfying it, len(lst) if none (0 for the empty list); the items before it fail the predicate, the item at it satisfies it',
+    'C04_split_at_spec': 'split_at / rsplit_at for a predicate that does not raise, EVERY list: the list cut in two, nothing lost or reordered; split_at cuts in front of the first satisfying item, rsplit_at directly after the last one (nothing satisfying to its right, its left part ends with a satisfying item)',
+    'C04_local_helpers_wiring': '[model wiring] the model of process_von_last (which inlines rsplit_at) equals process_von_last written with rsplit_at, and the no-comma branch of the model of _parse_string equals split_at + pop + process_first_middle + process_von_last (hypothesis: the name has exactly one comma part)',
+    'C04_special_char_case': 'special_char_islower(sc) is True exactly when the rule Spec.specialCase says lower case, for EVERY string sc (no hypothesis; also without leading backslash, empty, with braces)',
+    'C04_von_last_spec': 'process_von_last(parts) on ANY list of non-empty strings (hypothesis: no empty string in the list) never raises and gives the rule Spec.vonLast appended to the person; von ++ last = parts; process_first_middle: first token First, the rest Middle',
+    'C04_tokeniser_is_rule': 'on EVERY brace-balanced string (hypothesis: balanced) the model tokeniser splitTex (split_tex_string: partition / re.split / _find_closing_brace) returns exactly the tokens of the one-pass tokeniser stated from the property text (Spec.nameTokens: maximal pieces between brace-level-0 white space, ties not after a backslash, control spaces) and its comma parts are exactly the stripped pieces between brace-level-0 commas (Spec.nameCommaParts)',
+    'C04_tokens_by_rule': 'C04_tokens_preserved with the tokeniser of the property text, for a brace-balanced name (hypotheses: balanced, the parse returned): First++Middle++von++Last = Spec.nameTokens(name) without commas; von++Last / Jr / First++Middle = Spec.nameTokens of the first / second / last brace-level-0 comma part (surplus parts joined by blanks)',
+    'C04_tokeniser_is_rule_all': 'EVERY string, unbalanced braces included (no hypothesis): the comma parts of the model tokeniser are exactly Spec.nameCommaParts; its tokens are Spec.nameTokens with white space stripped from the ends of each token, and exactly Spec.nameTokens when the string does not end in white space (e.g. is stripped, as the string Person.__init__ parses)',
+    'C04_tokeniser_is_rule_neg': 'the proviso cannot go: on "a {b " (white space at the end of a last, unclosed group) split_tex_string gives the token "{b", the one-pass rule "{b " (kernel evaluation)',
+    'C04_tokens_by_rule_all': 'C04_tokens_by_rule without the balance hypothesis (hypothesis: the parse returned): comma parts = Spec.nameCommaParts, every name list = Spec.nameTokens of its comma part with white space stripped from the ends of each token',
+    'C04_modes': 'parsing succeeds (possibly reporting too many commas) in EVERY error mode, any six constructor arguments (no hypothesis): at most three comma parts - nothing raised, captured or printed, error_code 0, all modes alike; more - the same person in capture and non-strict mode (report captured / one WARNING line, error_code 2), strict mode raises InvalidNameString; the text names the stripped string in all modes [the mode dispatch itself is model wiring of report_error]',
     'C04_groups_never_split': 'braced groups are never split, ONLY for a name with balanced braces (the property states it without that proviso; unbalanced: ASSUMPTIONS): every returned token is brace-balanced in all comma forms incl. too many commas; likewise the tokens of a balanced explicit part (from C12_split_braces; stripping and blank-joining keep the balance)',
 }
 RULE = ('all token shapes up to the tier token count over the ASCII token classes {Capitalised, lowercase, braced, special-char upper, '
@@ -40,13 +52,16 @@ RULE = ('all token shapes up to the tier token count over the ASCII token classe
         'every special-character shape; seeded noisy long names with Latin-1, '
         'Cyrillic, Greek, CJK, Hebrew, Hangul, circled and astral letters and mixed white space; tokens starting with code points at and next to the '
         'boundaries of the interpreter\'s isalpha/isupper/islower ranges and with random code points; explicit part arguments with the '
-        'same token material; the table of '
+        'same token material; FUNCTION LEVEL: the local functions of _parse_string (is_von_name, special_char_islower, find_pos, split_at, rsplit_at, '
+        'process_von_last, process_first_middle) rebuilt from the running code objects and driven one by one (every token of the families above as a '
+        'token of its own, every short string, nesting 99..102, every 0/1 pattern for the list helpers, every short token list); the same names in the '
+        'three error modes of pybtex.errors (capture / strict / non-strict) with the report text; the table of '
         'tests/parse_name_test.py as corpus (also re-written with line breaks as in wrapped .bib files); non-trivial = more than one token or a comma; distinct by case JSON')
 TRUSTED = ['character classes: str.isalpha / str.isupper / str.islower of the running interpreter on single code points, regenerated as '
            'range tables (harness/tablegen/unicode.py -> Gen/Unicode.lean) on every run',
            'tokenisation in the theorems is the C12 model of split_tex_string (splitTex); the oracle compares the tokens with the '
            'independent one-pass tokeniser Spec.nameTokens / Spec.nameCommaParts (stated from the property text) on every case whose brace '
-           'groups are all closed; splitTex = Spec.nameTokens is checked on those cases, not proved',
+           'groups are all closed; splitTex = Spec.nameTokens / nameCommaParts is PROVED for balanced strings (C04_tokeniser_is_rule) and checked on the closed-group cases with a stray closing brace',
            'the case rule Spec.tokenCase sits on the shared scanner scan (C12 model of scan_bibtex_string): Spec.tokCaseOf / Spec.specialCase mirror the model\'s '
            'vonScan / specialCharIsLower over the scanner\'s tokens, incl. scan = none => caseless (pybtex\'s 100-level limit, not BibTeX\'s); the scanner is '
            'characterised in C12 (C12_scan_lossless / _levels / _total); the rule is restated scanner-free in Spec.tokenCaseBibtex and proved equal to it within the '
@@ -59,8 +74,10 @@ ASSUMPTIONS = ['/repo carries the proposed repairs C04-1 (is_von_name: an over-n
                'ordinary group is no special character); on a tree without them the check reports the defects as violations with failing inputs',
                'a token that nests braces deeper than pybtex\'s scanner limit (100 levels) and does not start with a cased character is '
                'caseless in the rule (Spec.tokenCase); BibTeX itself has no nesting limit (its limits are buffer sizes) and would scan on',
-               'on a string with an unclosed brace group the code treats the text after the last brace as brace level 0; the property text '
-               'does not say what the tokens of such a string are, so there the token reference is the model of split_tex_string',
+               'on a string with an unclosed brace group the group runs to the end of the string, in the code (after repair C12-1) as in the rule '
+               'Spec.nameTokens - proved equal for every string up to white space at the end of a last unclosed group, which the code strips from the '
+               'token (C04_tokeniser_is_rule_all / _neg); the property text does not say what the tokens of such a string are, so the ORACLE still takes '
+               'the model of split_tex_string as the token reference there',
                'BibTeX knows ASCII letters only: beyond ASCII the rule is BibTeX\'s rule read with Python\'s character classes (also for the '
                'letters that make up a control sequence)']
 
@@ -115,9 +132,106 @@ NEAR_CS = ['', 'I', 'J', 'Oe', 'oE', 'aE', 'Aa', 'SS', 'ii', 'oo', 'ssx', 'os', 
 PARTS = ('first', 'middle', 'prelast', 'last', 'lineage')
 
 
+LOCAL_OPS = ('isvon', 'spislower', 'findpos', 'vonlast')
+SKIPPED = {'skipped': 'the tree under test has no local function of this name in Person._parse_string'}
+
+
+def _flag(item):
+    return item[:1] == '1'
+
+
+def _impl_local(case):
+    """function-level correspondence: the local functions of Person._parse_string, rebuilt from the running code objects"""
+    from props import c04_locals
+    op = case['op']
+    loc = c04_locals.fresh()
+    try:
+        if op == 'isvon':
+            f = loc.get('is_von_name')
+            return dict(SKIPPED) if f is None else {'von': bool(f(case['tok']))}
+        if op == 'spislower':
+            f = loc.get('special_char_islower')
+            return dict(SKIPPED) if f is None else {'lower': bool(f(case['sc']))}
+        if op == 'findpos':
+            fs = [loc.get(n) for n in ('find_pos', 'split_at', 'rsplit_at')]
+            if any(f is None for f in fs):
+                return dict(SKIPPED)
+            items = list(case['items'])
+            out = {'find_pos': fs[0](list(items), _flag)}
+            for name, f in (('split_at', fs[1]), ('rsplit_at', fs[2])):
+                a, b = f(list(items), _flag)
+                out[name] = {'left': list(a), 'right': list(b)}
+            return out
+        if op == 'vonlast':
+            f = loc.get('process_von_last')
+            loc2 = c04_locals.fresh()
+            g = loc2.get('process_first_middle')
+            if f is None or g is None:
+                return dict(SKIPPED)
+            try:
+                f(list(case['toks']))
+                vl = {'prelast': list(loc.person.prelast_names), 'last': list(loc.person.last_names)}
+                if loc.person.first_names or loc.person.middle_names or loc.person.lineage_names:
+                    vl['other'] = [loc.person.first_names, loc.person.middle_names, loc.person.lineage_names]
+            except Exception as e:  # noqa
+                vl = {'error': compat.pybtex_error_kind(e)}
+            g(list(case['toks']))
+            return {'von_last': vl, 'first_middle': {'first': list(loc2.person.first_names), 'middle': list(loc2.person.middle_names)}}
+    except Exception as e:  # noqa
+        return {'error': compat.pybtex_error_kind(e)}
+    return {'error': 'unknown op'}
+
+
+def reconcile(case, view, mo):
+    """a tree whose _parse_string has no local function of that name: the function-level case is dropped on both sides"""
+    if isinstance(view, dict) and 'skipped' in view:
+        return {}, {}
+    return view, mo
+
+
+def _impl_mode(case):
+    """Person(s) in capture / strict / non-strict mode; the module state of pybtex.errors and pybtex.io is put back afterwards"""
+    import io as _io
+    import pybtex.io
+    from pybtex import errors
+    from pybtex.database import Person
+    saved = (errors.strict, errors.error_code, pybtex.io.stderr)
+    out = {'person': None, 'raised': None, 'captured': [], 'stderr': '', 'error_code': 0}
+    try:
+        errors.error_code = 0
+        buf = _io.StringIO()
+        pybtex.io.stderr = buf
+        try:
+            if case['mode'] == 'capture':
+                with errors.capture() as captured:
+                    p = Person(case['s'])
+                out['captured'] = [str(e) for e in captured]
+                if any(type(e).__name__ != 'InvalidNameString' for e in captured):
+                    return {'error': 'UNEXPECTED-REPORT:' + ','.join(type(e).__name__ for e in captured)}
+            else:
+                errors.set_strict_mode(case['mode'] == 'strict')
+                p = Person(case['s'])
+            out['person'] = {'first': p.first_names, 'middle': p.middle_names, 'prelast': p.prelast_names, 'last': p.last_names,
+                             'lineage': p.lineage_names, 'bibtex_first': p.bibtex_first_names, 'str': str(p)}
+        except Exception as e:  # noqa
+            if type(e).__name__ == 'InvalidNameString' and case['mode'] == 'strict':
+                out['raised'] = str(e)
+            else:
+                return {'error': compat.pybtex_error_kind(e)}
+        out['stderr'] = buf.getvalue()
+        out['error_code'] = errors.error_code
+        return out
+    finally:
+        errors.strict, errors.error_code, pybtex.io.stderr = saved
+
+
 def impl(case):
     from pybtex import errors
     from pybtex.database import Person
+    if case['op'] in LOCAL_OPS:
+        return _impl_local(case)
+    if case['op'] == 'personmode':
+        return _impl_mode(case)
     try:
         with errors.capture() as captured:
             if case['op'] == 'person':
@@ -276,8 +390,104 @@ def _case_as_bibtex(s, p, spec):
     return fails
 
 
+def _in_domain(t):
+    return bool(t) and _balanced(t) and _max_depth(t) <= 100
+
+
+def _oracle_local(case, io, spec):
+    """the clauses of the property evaluated on what the local functions return"""
+    op = case['op']
+    fails = []
+    if 'skipped' in io:
+        return fails
+    if 'error' in io:
+        return ['total: %s(%r) raised %s' % (op, {k: v for k, v in case.items() if k != 'op'}, io['error'])]
+    von = bibtex_von_token_found
+    if op == 'isvon':
+        t = case['tok']
+        if _in_domain(t):
+            if io['von'] != von(t):
+                fails.append('case_as_bibtex: is_von_name(%r) = %r; by BibTeX\'s rule (von_token_found: first brace-level-0 letter or special '
+                             'character) the token is %slower-case' % (t, io['von'], '' if von(t) else 'not '))
+            if (spec['case_bibtex'] == 'lower') != von(t):
+                fails.append('case_as_bibtex: the two statements of bibtex.web\'s rule disagree on the token %r: harness transliteration %r, '
+                             'Spec.tokenCaseBibtex %r' % (t, von(t), spec['case_bibtex']))
+    elif op == 'spislower':
+        sc = case['sc']
+        # a special character as the scanner hands it out: backslash first, its own groups closed (the brace that ends it is the first
+        # unmatched one)
+        if sc.startswith('\\') and _balanced(sc) and _in_domain('{' + sc + '}'):
+            want = von('{' + sc + '}')
+            if io['lower'] != want:
+                fails.append('case_as_bibtex: special_char_islower(%r) = %r; the special character {%s} is %slower-case by BibTeX\'s rule' % (
+                    sc, io['lower'], sc, '' if want else 'not '))
+    elif op == 'findpos':
+        items = case['items']
+        first = next((i for i, x in enumerate(items) if _flag(x)), len(items))
+        last = max([i for i, x in enumerate(items) if _flag(x)] + [-1])
+        if io['find_pos'] != first:
+            fails.append('von_longest: find_pos(%r, starts-with-1) = %r, the first such item is at %r' % (items, io['find_pos'], first))
+        sa, rs = io['split_at'], io['rsplit_at']
+        if sa['left'] + sa['right'] != items or rs['left'] + rs['right'] != items:
+            fails.append('tokens_preserved: split_at / rsplit_at of %r gave %r / %r' % (items, sa, rs))
+        if len(sa['left']) != first:
+            fails.append('case_rule: split_at(%r) cuts at %d, the first satisfying item is at %d' % (items, len(sa['left']), first))
+        if len(rs['left']) != last + 1:
+            fails.append('von_longest: rsplit_at(%r) cuts at %d, the last satisfying item is at %d' % (items, len(rs['left']), last))
+    elif op == 'vonlast':
+        toks = case['toks']
+        vl, fm = io['von_last'], io['first_middle']
+        if 'error' in vl:
+            return ['total: process_von_last(%r) raised %s' % (toks, vl['error'])]
+        if vl['prelast'] + vl['last'] != toks or 'other' in vl:
+            fails.append('tokens_preserved: process_von_last(%r) -> %r' % (toks, vl))
+        if fm['first'] + fm['middle'] != toks or len(fm['first']) != min(1, len(toks)):
+            fails.append('tokens_preserved: process_first_middle(%r) -> %r' % (toks, fm))
+        if all(_in_domain(t) for t in toks):
+            where = 'process_von_last(%r) = %r' % (toks, vl)
+            if toks and not vl['last']:
+                fails.append('von_longest: %s leaves no last name' % where)
+            if vl['prelast'] and not von(vl['prelast'][-1]):
+                fails.append('case_as_bibtex: %s: the von part ends with %r, which is not lower-case by BibTeX\'s rule' % (where, vl['prelast'][-1]))
+            for t in vl['last'][:-1]:
+                if von(t):
+                    fails.append('case_as_bibtex: %s: the token %r of the Last part (not its final token) is lower-case by BibTeX\'s rule' % (where, t))
+            if [von(t) for t in toks] != spec['low_bibtex']:
+                fails.append('case_as_bibtex: the two statements of bibtex.web\'s rule disagree on the tokens %r' % (toks,))
+            if spec['with_rsplit_at'] != vl:
+                fails.append('matches_bibtex: %s, process_von_last written with rsplit_at gives %r' % (where, spec['with_rsplit_at']))
+            if vl['prelast'] != spec['von'] or vl['last'] != spec['last']:
+                fails.append('matches_bibtex: %s, BibTeX rule gives von %r last %r' % (where, spec['von'], spec['last']))
+    return fails
+
+
+def _oracle_mode(case, io, spec):
+    """"parsing succeeds (possibly reporting too many commas) for every string", mode by mode: with the report captured or printed
+    as a warning the constructor returns the person the rule gives; in strict mode the only thing it may raise is the report itself"""
+    fails = []
+    s, mode = case['s'], case['mode']
+    if 'error' in io:
+        return ['total: Person(%r) in %s mode raised %s' % (s, mode, io['error'])]
+    many = len(spec['rule_comma_parts']) > 3 if spec.get('closed') else spec['too_many_commas']
+    reported = bool(io['raised'] or io['captured'] or io['stderr'])
+    if reported != many:
+        fails.append('total: Person(%r) in %s mode reported too many commas = %r with %d comma parts' % (s, mode, reported, len(spec['rule_comma_parts'])))
+    if mode != 'strict' or not many:
+        if io['person'] is None:
+            fails.append('total: Person(%r) in %s mode did not return a person' % (s, mode))
+        else:
+            got = {k: io['person'][k] for k in PARTS}
+            if got != {k: spec['person'][k] for k in PARTS}:
+                fails.append('matches_bibtex: Person(%r) in %s mode = %r, BibTeX rule gives %r' % (s, mode, got, {k: spec['person'][k] for k in PARTS}))
+    return fails
+
+
 def oracle(case, io, reply):
     fails = []
+    if case['op'] in LOCAL_OPS:
+        return _oracle_local(case, io, reply.get('spec', {}))
+    if case['op'] == 'personmode':
+        return _oracle_mode(case, io, reply.get('spec', {}))
     s = case['s']
     spec = reply.get('spec', {})
     if 'error' in io:
@@ -333,6 +543,22 @@ def oracle(case, io, reply):
 def buckets(case, io):
     if 'error' in io:
         return ['error:' + io['error']]
+    if case['op'] == 'personmode':
+        return ['mode:%s:%s' % (case['mode'], 'raised' if io['raised'] else 'warned' if io['stderr'] else 'captured' if io['captured'] else 'clean')]
+    if case['op'] in LOCAL_OPS:
+        b = ['local:' + case['op']]
+        if 'skipped' in io:
+            b.append('local-skipped')
+        elif case['op'] == 'isvon':
+            b.append('isvon=%s' % io['von'])
+            t = case['tok']
+            b.append('isvon:' + ('cased-first' if t[:1].isupper() or t[:1].islower() else 'over-nested' if _max_depth(t) > 100 else
+                                 'special-char' if '{\\' in t else 'scanned'))
+        elif case['op'] == 'spislower':
+            b.append('spislower=%s' % io['lower'])
+        elif case['op'] == 'vonlast' and 'error' not in io['von_last']:
+            b.append('vonlast:' + ('von' if io['von_last']['prelast'] else 'no-von'))
+        return b
     p = io['person']
     s = case['s']
     b = ['commas=%d' % min(s.count(','), 4)]
@@ -356,6 +582,8 @@ def buckets(case, io):
 
 
 def nontrivial(case, io):
+    if case['op'] in LOCAL_OPS or case['op'] == 'personmode':
+        return True
     return ',' in case['s'] or len(case['s'].split()) > 1 or case['op'] != 'person'
 
 
@@ -535,6 +763,95 @@ def _ordinary_group_cases():
     return out
 
 
+# ----------------------------------------------------------------------------------------------
+# function-level families: the local functions of Person._parse_string one by one (ops isvon / spislower / findpos / vonlast)
+LOCAL_ALPHA = ['a', 'B', '{', '}', '\\', '1', ' ', '毛']
+SP_ALPHA = ['a', 'B', 'o', 'O', 'e', ' ', '{', '}', '1', '\\']
+SP_RESTS = ['', 'x', 'X', ' x', ' X', '{}x', '{X}', '{x}', '1x', '1X', 'É', 'é', '\\o', '\\O x', ' ', '  \tx', '-X', '~x', '{{x}}', '毛x', 'ⓐX']
+VL_CLASSES = ['von', 'Smith', '{\\o}x', '1{2}', '{x\\y}v', 'ⓐB', '{\\O}x']
+
+
+def _local_cases(tier, rng):
+    cases = []
+    quick = tier == 'quick'
+    # is_von_name: every token of the end-to-end families as a token of its own, every short string, deep nesting, boundaries
+    toks = set(ALLTOKENS.values()) | set(UPOOL)
+    for g in ORD_GROUPS:
+        for h in ('', '1', '-', 'a', 'A', '毛'):
+            for t in ('von', 'Von', '', '1', 'v', 'V', '1x', '{z}v', '-é'):
+                toks.add(h + g + t)
+    for cs in BUILTIN_CS + NEAR_CS:
+        for f in ('{\\%s}', '{\\%s}x', '{\\%s}X', '{\\%s x}', '{\\%s X}', '{\\%s{}}x', '{\\%s{X}}', '{\\%s1x}', 'x{\\%s}', '1{\\%s}X', '-{\\%s}', '{{\\%s}}x',
+                  '{\\%s', '{\\%s x', '\\%s', '\\%s{}x', "{\\'\\%s}", '{\\%s\\%s}', '{\\ %s}', '{\\%s}{\\O}', '{\\%s}{\\o}', '{}{\\%s}x', '1{x}{\\%s}'):
+            toks.add(f.replace('%s', cs))
+    for k in (99, 100, 101, 102):
+        for pre in ('', 'a', 'B', '1', '毛', 'ⓐ', '-'):
+            for inner in ('', 'x', 'X', '\\x'):
+                toks.add(pre + '{' * k + inner + '}' * k + 'y')
+        for inner in ('a', 'A', ''):
+            toks.add('{\\x' + '{' * (k - 1) + inner + '}' * (k - 1) + '}')
+            toks.add('1{\\x' + '{' * (k - 1) + inner + '}' * (k - 1))
+    for n in range(1, (4 if quick else 5) + 1):
+        for tup in itertools.product(LOCAL_ALPHA, repeat=n):
+            toks.add(''.join(tup))
+    toks.discard('')
+    cases.extend({'op': 'isvon', 'tok': t} for t in sorted(toks))
+    ranges = _class_ranges()
+    for _ in range(600 if quick else 8000):
+        a, b = rng.choice(ranges)
+        cp = rng.choice([a - 1, a, b, b + 1, rng.randint(0x80, 0xFFFF)])
+        if _okcp(cp):
+            cases.append({'op': 'isvon', 'tok': rng.choice(['%s', '%sx', '1%s', '{}%sX', "{\\'%s}", '{\\x %s}X', '{x\\y}%s', '-{%s}%s']).replace('%s', chr(cp))})
+    # special_char_islower: every control sequence x every continuation, every short string (with and without the backslash)
+    scs = set()
+    for cs in BUILTIN_CS + NEAR_CS:
+        for r in SP_RESTS:
+            scs.add('\\' + cs + r)
+    for n in range(0, (3 if quick else 4) + 1):
+        for tup in itertools.product(SP_ALPHA, repeat=n):
+            scs.add('\\' + ''.join(tup))
+            scs.add(''.join(tup))
+    cases.extend({'op': 'spislower', 'sc': x} for x in sorted(scs))
+    for _ in range(300 if quick else 4000):
+        a, b = rng.choice(ranges)
+        cp = rng.choice([a - 1, a, b, b + 1, rng.randint(0x80, 0xFFFF)])
+        if _okcp(cp):
+            cases.append({'op': 'spislower', 'sc': rng.choice(['\\%s', '\\x%s', '\\x %s', '\\%sx X', '\\o%s', '\\ %s', "\\'%sX", '\\x{%s}'] ).replace('%s', chr(cp))})
+    # find_pos / split_at / rsplit_at: every 0/1 pattern up to 6 (7) items, the items made distinct
+    for n in range(0, (6 if quick else 8) + 1):
+        for bits in itertools.product('01', repeat=n):
+            cases.append({'op': 'findpos', 'items': ['%s%s' % (b, chr(97 + i)) for i, b in enumerate(bits)]})
+    # process_von_last / process_first_middle: every token list up to 4 (5) tokens over seven classes, seeded longer ones
+    for n in range(0, (4 if quick else 5) + 1):
+        for tup in itertools.product(VL_CLASSES, repeat=n):
+            cases.append({'op': 'vonlast', 'toks': list(tup)})
+    pool = [t for t in list(ALLTOKENS.values()) + UPOOL + ['de', 'la', 'Jr.', '{\\relax van}', '{x\\y}von', '{x}{\\y}von', '1{x\\o}', '{\\ss}', '{\\AE}x',
+                                                         '{' * 101 + '}' * 101 + 'a', 'a' + '{' * 101 + '}' * 101, 'ⓐ', '{', '}', '\\'] if t]
+    for _ in range(600 if quick else 10000):
+        cases.append({'op': 'vonlast', 'toks': [rng.choice(pool) for _ in range(rng.randint(1, 9))]})
+    return cases
+
+
+MODE_TOKENS = ['Smith', 'von', "O'Brien", 'a"b', '\'"', '{a, b}', '\\x', 'A\nB', '\x85', 'é', '毛', '\U0001d400', '\x7f', '\xad', '\u2028x', '{', '}', '']
+
+
+def _mode_cases(tier, rng):
+    """the same name in the three error modes: 0..5 commas, characters that repr() escapes or quotes differently, white space around"""
+    names = set()
+    for n in range(1, 7):
+        for t in MODE_TOKENS:
+            for sep in (', ', ',', ' , '):
+                names.add(sep.join(['A'] * (n - 1) + [t]))
+                names.add(sep.join([t] + ['b'] * (n - 1)))
+    for nm in ('a, b, c, d', 'von Last, Jr, First, X'):
+        for pad in (' ', '\n', '\t ', '\u00a0'):
+            names.update([pad + nm, nm + pad, pad + nm + pad])
+    names.update(['', ' ', ',', ',,', ',,,', ',,,,', ', , , ,', '{,,,,}', '{a,b},c,d,e', 'a,b,c,{d', 'a},b,c,d'])
+    for _ in range(60 if tier == 'quick' else 2000):
+        names.add(''.join(rng.choice(MODE_TOKENS + [',', ', ', ' ']) for _ in range(rng.randint(1, 10))))
+    return [{'op': 'personmode', 's': s, 'mode': m} for s in sorted(names) for m in ('capture', 'strict', 'nonstrict')]
+
+
 def gen_cases(tier, rng, info):
     cases = []
     maxtok = 3 if tier == 'quick' else 4
@@ -622,8 +939,26 @@ def gen_cases(tier, rng, info):
     for w in PY_WS + NOT_WS:
         cases.append({'op': 'personparts', 's': '', 'first': 'A%sB' % w, 'middle': '%sC%s' % (w, w), 'prelast': 'von~%sder' % w, 'last': '{L%sM}%sN' % (w, w),
                       'lineage': w})
+    local = _local_cases(tier, rng)
+    info['scope'] += ('; function level (the local functions of _parse_string rebuilt from the running code objects): %d cases - is_von_name on every '
+                      'token of the families above as a token of its own, every string of length <=%d over %r, nesting 99..102, class-table boundaries; '
+                      'special_char_islower on %d control sequences x %d continuations and every string of length <=%d over %r with / without the '
+                      'backslash; find_pos / split_at / rsplit_at on every 0/1 pattern of <=%d items; process_von_last / process_first_middle on every '
+                      'list of <=%d tokens over %r' % (len(local), 4 if tier == 'quick' else 5, LOCAL_ALPHA, len(BUILTIN_CS + NEAR_CS), len(SP_RESTS),
+                                                       3 if tier == 'quick' else 4, SP_ALPHA, 6 if tier == 'quick' else 8, 4 if tier == 'quick' else 5,
+                                                       VL_CLASSES))
+    cases.extend(local)
+    modes = _mode_cases(tier, rng)
+    info['scope'] += '; %d names x the three error modes of pybtex.errors (capture / strict / non-strict), 0..5 commas, characters that repr() quotes or escapes' % (len(modes) // 3)
+    cases.extend(modes)
     return cases
 
+
+TRUSTED.append('function-level correspondence: harness/props/c04_locals.py makes function objects from the code objects of the local functions of '
+               'Person._parse_string (types.FunctionType with rebuilt closure cells); if the tree under test has no local of that name the '
+               'function-level cases are dropped on both sides (the end-to-end families still run)')
+TRUSTED.append('constants: harness/tablegen/c04.py reads the tuples / defaults / patterns / format strings from the code objects of /repo into '
+               'Gen/NamesTables.lean on every run; C04_tables_current proves the model constants equal to them')
 
 LEVEL_TEXT = ('Machine-checked proofs (Lean 4) about the function-by-function model of Person.__init__ / Person._parse_string (after the '
               'proposed repairs C04-1, C04-2 and C04-3): for EVERY non-empty string (unbounded length, any nesting) the model equals the declarative '
@@ -638,7 +973,11 @@ LEVEL_TEXT = ('Machine-checked proofs (Lean 4) about the function-by-function mo
               'deep nesting at every position, the built-in control sequences + random + the parse_name_test table, also re-wrapped) and the '
               'oracle evaluating the spec; the tokens are also compared with a one-pass tokeniser stated from the property text. Letters and '
               'case are the interpreter\'s Unicode classes (str.isalpha / isupper / islower on one '
-              'character), in the model and in the rule alike (C04_char_classes).')
+              'character), in the model and in the rule alike (C04_char_classes). Extension: on every brace-balanced string the model tokeniser '
+              'IS the one-pass tokeniser of the property text (C04_tokeniser_is_rule, C04_tokens_by_rule); the local helpers find_pos / split_at / '
+              'rsplit_at / special_char_islower / process_von_last are characterised one by one for all arguments (C04_find_pos_spec, '
+              'C04_split_at_spec, C04_special_char_case, C04_von_last_spec) and each is driven against the real closure; the three error modes '
+              '(C04_modes); the constants the model hard-codes are proved equal to those regenerated from /repo (C04_tables_current).')
 LEVEL_NOTE = ('Trusted: Lean kernel; axioms propext/Classical.choice/Quot.sound only; the hand-written model (Model/Names.lean, '
               'Model/TeXString.lean) corresponds to pybtex only as far as the differential check explores; the character classes are the '
               'range tables regenerated from the running interpreter (Gen/Unicode.lean; sortedness, upper/lower disjointness, ASCII '
@@ -649,7 +988,7 @@ LEVEL_NOTE = ('Trusted: Lean kernel; axioms propext/Classical.choice/Quot.sound 
               'control sequences; no binary to compare with). parseName is _parse_string on the '
               'stripped non-empty argument (find_pos after repair #3). A token nested deeper than 100 levels that does not start with a cased '
               'character is caseless in the rule (pybtex\'s scanner limit; BibTeX has none). Spec.nameTokens / nameCommaParts (the tokeniser '
-              'stated from the property text) are compared with the code on every case with closed groups but not proved equal to splitTex; '
+              'stated from the property text) are proved equal to splitTex on every brace-balanced string (C04_tokeniser_is_rule) and, up to white space at the end of an unclosed last group, on EVERY string (C04_tokeniser_is_rule_all) and compared with the code on every case with closed groups; '
               'concrete witnesses are checked by kernel evaluation (decide +kernel). RELATIVE NOTIONS: "token" in every theorem is a token of the shared model '
               'tokeniser splitTex and "brace level 0" / "special character" in Spec.tokenCase are those of the shared scanner scan (both C12 models); C04_matches_spec and '
               'C04_case_of_token are therefore proved modulo these two, which C12 characterises separately. For the CASE RULE the dependence is discharged: the scanner-free '
